@@ -6,6 +6,7 @@ validation, each an event of the model's trace; the store is assumed to perform 
 store reached by replaying the first `j` events (`applyEvents`, Model/AuthCancel.lean).
 -/
 import PasskeyVerif.Lemmas.AuthCancel
+import PasskeyVerif.Model.U2f
 namespace PasskeyVerif.C07
 open PasskeyVerif.Auth PasskeyVerif.Auth.Spec
 open PasskeyVerif.AuthData (Bytes AuthData)
@@ -124,5 +125,26 @@ theorem C07_get_lookup_error (cfg : Cfg) (u : UvCfg) (s : Store) (req : GetReq) 
   intro r h
   obtain ⟨p, rest, h1, _⟩ := PasskeyVerif.Auth.getAssertion_first_of_lookup cfg u s req r h
   rw [hf] at h1; cases h1
+
+/-! ### the U2F registration path saves through the same store -/
+
+/-- **U2F registration**: whatever status the store answers the save with (every code, 0x00 included), a
+refused save is an error of the registration and the store holds what it held; a registration that
+succeeds was accepted by the store. -/
+theorem C07_u2f_register_store_error_reported (s : Store) (k : Key) (app chal handle : Bytes) :
+    (∀ e, s.fault? = some e →
+        (∃ err, (U2f.register s k app chal handle).1 = .error err)
+          ∧ storeObs (U2f.register s k app chal handle).2.1 = storeObs s)
+    ∧ (∀ r, (U2f.register s k app chal handle).1 = .ok r → s.fault? = none
+          ∧ (U2f.register s k app chal handle).2.1.items = saveRaw s.kind s.items (U2f.u2fPasskey app handle k)) := by
+  unfold U2f.register Store.save
+  constructor
+  · intro e he
+    rw [he]
+    exact ⟨⟨_, rfl⟩, rfl⟩
+  · intro r hr
+    cases hf : s.fault? with
+    | some e => rw [hf] at hr; cases hr
+    | none => exact ⟨rfl, rfl⟩
 
 end PasskeyVerif.C07
